@@ -131,6 +131,8 @@ def make_scene(eng, cname, role, rootkind=None, second=False):
         # in-memory attachment [L-COMP]: the child's view is the sub-value of the root's view at its position
         st.assume(st.sel("View", z3.IntVal(self_.addr)) ==
                   bs.sub_of(st.sel("View", z3.IntVal(root.addr)), VRef(z3.IntVal(self_.addr))))
+        st.assume(st.sel("View", z3.IntVal(root.addr)) ==
+                  bs.put_in(st.sel("View", z3.IntVal(root.addr)), VRef(z3.IntVal(self_.addr)), st.sel("View", z3.IntVal(self_.addr))))
     sc.self_, sc.root, sc.cls, sc.rootcls = self_, root, ci, rootcls
     # the shared synchronisation objects live on the root (SyncedCollection.__init__)
     susp0 = smt.fresh("susp0", IntS)
@@ -167,6 +169,11 @@ def make_scene(eng, cname, role, rootkind=None, second=False):
             if nm not in st.g:
                 st.g[nm] = smt.fresh(nm, smt.ArrVB)
             st.assume(z3.Select(st.g[nm], to_val(st.rec(n).fields["_filename"])))
+    for k in (fd, fl):
+        if eng.R["classes"][k.name]["supports_threading"]:
+            nm = "LockDom:" + k.name
+            if nm not in st.g:
+                st.g[nm] = smt.fresh(nm, smt.ArrVB)
     sc.nodes = nodes
     # Inv.data (C11): the content of every node is admissible for its own class
     from contracts.core import allowed
@@ -179,6 +186,8 @@ def make_scene(eng, cname, role, rootkind=None, second=False):
         st.assume(st.sel("Res", fn) == z3.If(st.sel("FS", fn) == smt.VAbsent, smt.VAbsent, json_loads(st.sel("FS", fn))))
     # Inv.res: a resource that exists holds a JSON document, never the bare value null
     st.assume(st.sel("Res", resid(eng, st, root)) != smt.VNone)
+    # ... decoded JSON holds no tuples / bytes: the tuple/bytes -> list normalisation leaves it alone
+    st.assume(bs.plain(st.sel("Res", resid(eng, st, root))) == st.sel("Res", resid(eng, st, root)))
     if second:
         o2cls = ci if second == "other" else rootcls
         o2 = new_node(eng, st, o2cls, "o2")
